@@ -434,7 +434,7 @@ impl Check for C18 {
         "C18"
     }
     fn plan(&self, tier: Tier) -> Plan {
-        let mut p = Plan::new(tier.pick(24_000, 800_000), tier.pick(40.0, 540.0));
+        let mut p = Plan::new(tier.pick(48_000, 4_800_000), tier.pick(35.0, 480.0));
         p.cpu_budget_s = 120.0;
         p
     }
